@@ -35,6 +35,7 @@ CFG = {
             "VM's reach (64 KiB, thorough 1 MiB of valid JSON before the fault; request targets of 65 540 bytes and more, "
             "which the HTTP parser answers 414) the specification alone is evaluated (CNoModel: 4xx, not entered, server "
             "alive). "
+            "Texts that f32::from_str / f64::from_str refuse ('1e', '.', '1.2.3', '0x10', 'infinit', 'NaN(1)', blanks, non-ASCII digits ..) as path and query values. "
             "Observables: a response must arrive, status in 4xx (never 5xx), error body = {request_id, message, "
             "optional error_code}, the endpoint's handler-entered counter (server private context) unchanged, and the "
             "server still answers on the same (or a fresh) connection. Judge: spec as just stated; model = Extract.v "
@@ -59,7 +60,7 @@ CFG = {
         "bodies larger than the limit (also a 400) belong to C11 and are not generated here",
         "a malformed multipart BODY behind a well-formed content type is reported by the handler (multer parses "
         "lazily inside it), like a StreamingBody; only multipart content types are in the malformed stream",
-        "f32/f64 parameters are out of scope of the scalar model",
+        "f32/f64: refusal of ill-formed float texts is compared with the transcribed grammar on every run, not proved",
     ],
     "manifest": {
         "category": "proof",
